@@ -18,7 +18,7 @@ pub fn mon() -> Mon {
         replay,
         rule: "vendor_defined with all 65 536 PCI IDs (random high halves in `data`), IANA numbers (2^20-2^22 random plus every single-byte-lane pattern in quick; a 2^32 sharded sweep in thorough), every format byte 0..255, bodies of every length 0..249 with random content; the six trait-level vendor/SPDM generators with header None / Some(0-8 bytes). Bytes 8.. of each output are compared with literal big-endian layouts [0x7E, id>>8, id, msg], [0x7F, id>>24, id>>16, id>>8, id, msg], [0x05|0x06, hdr, body]; format >= 2 must return Err. Non-trivial = an output was judged or a bad format was refused; distinct = distinct (form, bytes 8..).",
         assumptions: &["message bodies limited to what one SMBus frame can carry (249 bytes after the type byte); larger ones are C04/C16's"],
-        children: no_children,
+        children: rel_child,
     }
 }
 
@@ -56,7 +56,19 @@ pub fn check(c: &Call, rep: &mut Report) {
     }
     let pkt = match note_outcome(rep, c, &obs) {
         Some(p) => p,
-        None => return,
+        None => {
+            // arguments that are valid and fit the frame must be encoded with the stated layout;
+            // a refusal or a panic is not that encoding
+            if exp.outcome == Outcome::Ok {
+                let oc = match &obs.res {
+                    Ok(Err(())) => "refused".to_string(),
+                    Err(p) => format!("panic:{}", p.kind),
+                    _ => "no-packet".to_string(),
+                };
+                rep.violation(&format!("{}:valid-message-not-encoded:{}", form, oc), || format!("valid arguments ({} byte packet expected) were not encoded: {}", exp.total_len(), obs.brief()), || c.encode());
+            }
+            return;
+        }
     };
     let n = pkt.len();
     let tail = &pkt[8..n - 1];
@@ -87,7 +99,8 @@ fn run(cfg: &RunCfg) -> Report {
     let mut rep = Report::new();
     let p = plan(cfg);
     for_each_call(cfg, "c08", &p, &mut |c, _| check(c, &mut rep));
-    if cfg.is_small() {
+    if cfg.is_small() || cfg.part == "rel" {
+        // the rel child (overflow checks off) repeats the catalogue part only
         return rep;
     }
     let ns = cfg.nshards as u64;
